@@ -52,6 +52,8 @@ def in_finding(L):
 
 def finding_matches(f, c):
   L = c['leaf']
+  if f.get('id') == 'sdevice-lossy-feasible-set-nonconvex':
+    return False      # about the feasible set, not about any cost case of the correspondence
   return f.get('match', {}).get('class') == L['cls'] and in_finding(L)
 
 
@@ -172,8 +174,26 @@ def oracle(c):
   return None
 
 
+def _lossy_feasible_set_witness(w):
+  """both end points satisfy the bounds and every exported constraint, a point between them does not"""
+  import device_kit as dk
+  d = dk.SDevice('w', w['n'], np.array(w['bounds'], dtype=float), capacity=w['capacity'], start=w['start'], efficiency=w['efficiency'])
+
+  def feasible(x):
+    x = np.array(x, dtype=float)
+    return all(lo - 1e-9 <= v <= hi + 1e-9 for v, (lo, hi) in zip(x, d.bounds)) and \
+        all((abs(c['fun'](x)) <= 1e-9) if c['type'] == 'eq' else (c['fun'](x) >= -1e-9) for c in d.constraints)
+  x, y, lam = np.array(w['x'], dtype=float), np.array(w['y'], dtype=float), w['lam']
+  return feasible(x) and feasible(y) and not feasible(lam * x + (1 - lam) * y)
+
+
 def witness_fails(f):
   w = f['witness']
+  if f.get('id') == 'sdevice-lossy-feasible-set-nonconvex':
+    try:
+      return _lossy_feasible_set_witness(w)
+    except ValueError:
+      return False
   import device_kit as dk
   cls = w['class']
   b = np.array(w['bounds'], dtype=float)
